@@ -13,7 +13,7 @@
    Nothing is assumed about fuel: the statements hold for every fuel at which the call returns. *)
 From FluentV Require Import Base.Bytes Base.BytesFacts Base.Outcome Syntax.Ast Bundle.Args Bundle.ArgsProofs
   Bundle.Number Bundle.ResolverAst Bundle.ResolverAstProofs Bundle.ResolverModel Bundle.ResolverEqns
-  Bundle.ResolverSim Bundle.ResolverIso Bundle.ResolverSpec Gen.Extracted.
+  Bundle.ResolverSim Bundle.ResolverIso Bundle.ResolverPure Bundle.ResolverSpec Gen.Extracted.
 From Coq Require Import Lia.
 
 Arguments N.add : simpl never.
@@ -122,14 +122,14 @@ Notation tr := (track overflow_checks call_function transform formatter rules cu
 Notation ga := (get_arguments overflow_checks call_function transform formatter rules custom_as_string
                   unescape_write unescape_to_string f64_from_str b args).
 
-Notation EP := (eval_pattern call_function transform formatter rules custom_as_string unescape_write f64_from_str m args).
-Notation EL := (eval_elements call_function transform formatter rules custom_as_string unescape_write f64_from_str m args).
-Notation EX := (eval_expr call_function transform formatter rules custom_as_string unescape_write f64_from_str m args).
-Notation EI := (eval_inline call_function transform formatter rules custom_as_string unescape_write f64_from_str m args).
-Notation EV := (eval_value call_function transform formatter rules custom_as_string unescape_write f64_from_str m args).
-Notation EA := (eval_args call_function transform formatter rules custom_as_string unescape_write f64_from_str m args).
-Notation ES := (eval_values call_function transform formatter rules custom_as_string unescape_write f64_from_str m args).
-Notation XP := (expand call_function transform formatter rules custom_as_string unescape_write f64_from_str m args).
+Notation EP := (eval_pattern call_function transform formatter rules custom_as_string unescape_write f64_from_str m args open_by_structure).
+Notation EL := (eval_elements call_function transform formatter rules custom_as_string unescape_write f64_from_str m args open_by_structure).
+Notation EX := (eval_expr call_function transform formatter rules custom_as_string unescape_write f64_from_str m args open_by_structure).
+Notation EI := (eval_inline call_function transform formatter rules custom_as_string unescape_write f64_from_str m args open_by_structure).
+Notation EV := (eval_value call_function transform formatter rules custom_as_string unescape_write f64_from_str m args open_by_structure).
+Notation EA := (eval_args call_function transform formatter rules custom_as_string unescape_write f64_from_str m args open_by_structure).
+Notation ES := (eval_values call_function transform formatter rules custom_as_string unescape_write f64_from_str m args open_by_structure).
+Notation XP := (expand call_function transform formatter rules custom_as_string unescape_write f64_from_str m args open_by_structure).
 
 Notation cok := (cache_ok rules).
 
@@ -243,46 +243,49 @@ Proof.
 Qed.
 
 (* ---------- the statements ---------- *)
-Definition R_pw f := forall p sc o sc', cok (sc_intls sc) -> pw f p sc = Done (o, sc') ->
-  Post (ViewP p) sc sc' (fun es cs => EP (Tof p sc) (sc_local_args sc) p (flatten o, es, cs)).
-Definition R_mt f := forall p e sc o sc', cok (sc_intls sc) -> mt f p e sc = Done (o, sc') ->
-  Post (ViewP p) sc sc' (fun es cs => EX (Tof p sc) (sc_local_args sc) e (flatten o, es, cs)).
-Definition R_ew f := forall e sc o sc', cok (sc_intls sc) -> sc_travelled sc <> [] -> ew f e sc = Done (o, sc') ->
-  Post ViewT sc sc' (fun es cs => EX (sc_travelled sc) (sc_local_args sc) e (flatten o, es, cs)).
-Definition R_iw f := forall i sc o sc', cok (sc_intls sc) -> sc_travelled sc <> [] -> iw f i sc = Done (o, sc') ->
-  Post ViewT sc sc' (fun es cs => EI (sc_travelled sc) (sc_local_args sc) i (flatten o, es, cs)).
-Definition R_ir f := forall i sc v sc', cok (sc_intls sc) -> sc_travelled sc <> [] -> ir f i sc = Done (v, sc') ->
-  Post ViewT sc sc' (fun es cs => EV (sc_travelled sc) (sc_local_args sc) i (v, es, cs)).
-Definition R_tr f := forall q exp sc o sc', cok (sc_intls sc) -> sc_travelled sc <> [] ->
+Definition R_pw f := forall p sc o sc' T, cok (sc_intls sc) -> Tof p sc = map snd T -> pw f p sc = Done (o, sc') ->
+  Post (ViewP p) sc sc' (fun es cs => EP T (sc_local_args sc) p (flatten o, es, cs)).
+Definition R_mt f := forall p e sc o sc' T, cok (sc_intls sc) -> Tof p sc = map snd T -> mt f p e sc = Done (o, sc') ->
+  Post (ViewP p) sc sc' (fun es cs => EX T (sc_local_args sc) e (flatten o, es, cs)).
+Definition R_ew f := forall e sc o sc' T, cok (sc_intls sc) -> sc_travelled sc <> [] -> sc_travelled sc = map snd T ->
+  ew f e sc = Done (o, sc') ->
+  Post ViewT sc sc' (fun es cs => EX T (sc_local_args sc) e (flatten o, es, cs)).
+Definition R_iw f := forall i sc o sc' T, cok (sc_intls sc) -> sc_travelled sc <> [] -> sc_travelled sc = map snd T ->
+  iw f i sc = Done (o, sc') ->
+  Post ViewT sc sc' (fun es cs => EI T (sc_local_args sc) i (flatten o, es, cs)).
+Definition R_ir f := forall i sc v sc' T, cok (sc_intls sc) -> sc_travelled sc <> [] -> sc_travelled sc = map snd T ->
+  ir f i sc = Done (v, sc') ->
+  Post ViewT sc sc' (fun es cs => EV T (sc_local_args sc) i (v, es, cs)).
+Definition R_tr f := forall n q exp sc o sc' T, cok (sc_intls sc) -> sc_travelled sc <> [] -> sc_travelled sc = map snd T ->
   inline_write_error exp = source_form exp ->
   tr f q exp sc = Done (o, sc') ->
-  Post ViewT sc sc' (fun es cs => XP (sc_travelled sc) (sc_local_args sc) exp (Found q) (flatten o, es, cs)).
-Definition R_ga f := forall oa sc pos named sc', cok (sc_intls sc) -> sc_travelled sc <> [] ->
+  Post ViewT sc sc' (fun es cs => XP T (sc_local_args sc) exp (Found n q) (flatten o, es, cs)).
+Definition R_ga f := forall oa sc pos named sc' T, cok (sc_intls sc) -> sc_travelled sc <> [] -> sc_travelled sc = map snd T ->
   ga f oa sc = Done (pos, named, sc') ->
-  Post ViewT sc sc' (fun es cs => EA (sc_travelled sc) (sc_local_args sc) oa (pos, named, es, cs)).
+  Post ViewT sc sc' (fun es cs => EA T (sc_local_args sc) oa (pos, named, es, cs)).
 
 Definition R_all f := R_pw f /\ R_mt f /\ R_ew f /\ R_iw f /\ R_ir f /\ R_tr f /\ R_ga f.
 
 (* ---------- rules of the specification with the triples spelled out ---------- *)
 Lemma L_text' T env s rest t es cs :
   EL T env rest (t, es, cs) -> EL T env (TextElement s :: rest) (transformed transform s ++ t, es, cs).
-Proof. intros H. exact (L_text _ _ _ _ _ _ _ _ _ T env s rest _ H). Qed.
+Proof. intros H. exact (L_text _ _ _ _ _ _ _ _ _ _ T env s rest _ H). Qed.
 
 Lemma L_placeable' T env e rest t1 e1 c1 t2 e2 c2 :
   EX T env e (t1, e1, c1) -> EL T env rest (t2, e2, c2) ->
   EL T env (PlaceableElement e :: rest) (t1 ++ t2, e1 ++ e2, c1 ++ c2).
-Proof. intros H1 H2. exact (L_placeable _ _ _ _ _ _ _ _ _ T env e rest _ _ H1 H2). Qed.
+Proof. intros H1 H2. exact (L_placeable _ _ _ _ _ _ _ _ _ _ T env e rest _ _ H1 H2). Qed.
 
 Lemma X_select' T env sel variants v es cs q t e2 c2 :
   EV T env sel (v, es, cs) -> chosen rules f64_from_str variants v = Some q -> EP T env q (t, e2, c2) ->
   EX T env (Select sel variants) (t, es ++ e2, cs ++ c2).
-Proof. intros H1 H2 H3. exact (X_select _ _ _ _ _ _ _ _ _ T env sel variants v es cs q _ H1 H2 H3). Qed.
+Proof. intros H1 H2 H3. exact (X_select _ _ _ _ _ _ _ _ _ _ T env sel variants v es cs q _ H1 H2 H3). Qed.
 
 Lemma X_select_no_default' T env sel variants v es cs :
   EV T env sel (v, es, cs) -> chosen rules f64_from_str variants v = None ->
   EX T env (Select sel variants) ([], es ++ [MissingDefault], cs).
 Proof.
-  intros H1 H2. pose proof (X_select_no_default _ _ _ _ _ _ _ _ _ T env sel variants v es cs H1 H2) as H.
+  intros H1 H2. pose proof (X_select_no_default _ _ _ _ _ _ _ _ _ _ T env sel variants v es cs H1 H2) as H.
   unfold silent, fails, seq in H. cbn [fst snd app] in H. rewrite app_nil_r in H. exact H.
 Qed.
 
@@ -290,7 +293,7 @@ Lemma I_term' T env id attr cargs pos named es cs t e2 c2 :
   EA T env cargs (pos, named, es, cs) ->
   XP T (Some named) (TermReference id attr cargs) (term_target m id attr) (t, e2, c2) ->
   EI T env (TermReference id attr cargs) (t, es ++ e2, cs ++ c2).
-Proof. intros H1 H2. exact (I_term _ _ _ _ _ _ _ _ _ T env id attr cargs pos named es cs _ H1 H2). Qed.
+Proof. intros H1 H2. exact (I_term _ _ _ _ _ _ _ _ _ _ T env id attr cargs pos named es cs _ H1 H2). Qed.
 
 (* ---------- small correspondences between model and specification ---------- *)
 Lemma print_write v : value_write formatter custom_as_string v = print formatter custom_as_string v.
@@ -317,7 +320,7 @@ Qed.
 Lemma message_case f id attribute sc :
   iw (S f) (MessageReference id attribute) sc =
   match message_target m id attribute with
-  | Found q => tr f q (MessageReference id attribute) sc
+  | Found _ q => tr f q (MessageReference id attribute) sc
   | Unknown => write_ref_error (MessageReference id attribute) sc
   | Valueless id' =>
       Done (braced (inline_write_error (MessageReference id attribute)), add_error sc (NoValue id'))
@@ -332,7 +335,7 @@ Lemma term_case f id attribute exp sc :
   term_body overflow_checks call_function transform formatter rules custom_as_string
     unescape_write unescape_to_string f64_from_str b args f id attribute exp sc =
   match term_target m id attribute with
-  | Found q => tr f q exp sc
+  | Found _ q => tr f q exp sc
   | _ => write_ref_error exp sc
   end.
 Proof.
@@ -434,18 +437,25 @@ Proof.
 Qed.
 
 Lemma Post_seqT a c d (J1 : list resolver_error -> list call_record -> Prop)
-      (K : list pattern -> option fargs -> list resolver_error -> list call_record -> Prop)
+      (K : option fargs -> list resolver_error -> list call_record -> Prop)
       (J : list resolver_error -> list call_record -> Prop) :
-  Post ViewT a c J1 -> Post ViewT c d (K (sc_travelled c) (sc_local_args c)) ->
-  (forall e1 c1 e2 c2, J1 e1 c1 -> K (sc_travelled a) (sc_local_args a) e2 c2 -> J (e1 ++ e2) (c1 ++ c2)) ->
+  Post ViewT a c J1 -> Post ViewT c d (K (sc_local_args c)) ->
+  (forall e1 c1 e2 c2, J1 e1 c1 -> K (sc_local_args a) e2 c2 -> J (e1 ++ e2) (c1 ++ c2)) ->
   Post ViewT a d J.
 Proof.
-  intros P1 P2 HJ. destruct P1 as (L1 & V1 & R1). unfold ViewT in V1. rewrite V1, L1 in P2.
+  intros P1 P2 HJ. destruct P1 as (L1 & V1 & R1). rewrite L1 in P2.
   eapply Post_seq; [apply ViewT_trans | exact (conj L1 (conj V1 R1)) | exact P2 | exact HJ].
 Qed.
 
+Lemma Post_trav sc sc' J : Post ViewT sc sc' J -> sc_travelled sc' = sc_travelled sc.
+Proof. intros (_ & V & _). exact V. Qed.
+
 Lemma Post_trav_ne sc sc' J : Post ViewT sc sc' J -> sc_travelled sc <> [] -> sc_travelled sc' <> [].
-Proof. intros (_ & V & _) H. unfold ViewT in V. rewrite V. exact H. Qed.
+Proof. intros P H. rewrite (Post_trav _ _ _ P). exact H. Qed.
+
+Lemma Post_trav_T sc sc' J (T : list (pname * pattern)) :
+  Post ViewT sc sc' J -> sc_travelled sc = map snd T -> sc_travelled sc' = map snd T.
+Proof. intros P H. rewrite (Post_trav _ _ _ P). exact H. Qed.
 
 Lemma Post_cok V sc sc' J : Post V sc sc' J -> cok (sc_intls sc').
 Proof. intros (_ & _ & _ & C & _). exact C. Qed.
@@ -453,18 +463,18 @@ Proof. intros (_ & _ & _ & C & _). exact C. Qed.
 (* ---------- the loops ---------- *)
 Lemma pattern_loop_spec f p len :
   R_mt f ->
-  forall els sc o sc', cok (sc_intls sc) ->
+  forall els sc o sc' T, cok (sc_intls sc) -> Tof p sc = map snd T ->
   pattern_loop overflow_checks transform b (mt f p) len els sc = Done (o, sc') ->
-  Post (ViewP p) sc sc' (fun es cs => EL (Tof p sc) (sc_local_args sc) els (flatten o, es, cs)).
+  Post (ViewP p) sc sc' (fun es cs => EL T (sc_local_args sc) els (flatten o, es, cs)).
 Proof.
-  intros Hmt. induction els as [|elem rest IH]; intros sc o sc' Hc H; cbn [pattern_loop] in H.
+  intros Hmt. induction els as [|elem rest IH]; intros sc o sc' T Hc HT H; cbn [pattern_loop] in H.
   - injection H as <- <-. apply Post_refl; [apply ViewP_refl | exact Hc | intros _; constructor].
   - destruct (sc_dirty sc) eqn:Hd.
     { injection H as <- <-. apply Post_refl; [apply ViewP_refl | exact Hc | intros Hx; congruence]. }
     destruct elem as [value | expression].
     + fold (pattern_loop overflow_checks transform b (mt f p) len) in H.
       apply obind_done in H as ([o1 sc1] & E & H). injection H as <- <-.
-      eapply Post_weaken; [exact (IH sc o1 sc1 Hc E) | auto |].
+      eapply Post_weaken; [exact (IH sc o1 sc1 T Hc HT E) | auto |].
       intros es cs _ HJ. exact (L_text' _ _ value rest _ _ _ HJ).
     + destruct (u8_add1 overflow_checks (sc_placeables sc)) as [n|t|] eqn:En; cbn [obind] in H; try discriminate.
       cbv zeta in H.
@@ -479,13 +489,15 @@ Proof.
         apply obind_done in H as ([o1 sc2] & E1 & H).
         apply obind_done in H as ([o2 sc3] & E2 & H). injection H as <- <-.
         set (sc1 := set_placeables sc n) in *.
-        assert (P1 : Post (ViewP p) sc sc2 (fun es cs => EX (Tof p sc) (sc_local_args sc) expression (flatten o1, es, cs))).
-        { eapply Post_pre; [| |exact (Hmt p expression sc1 o1 sc2 Hc E1)].
+        assert (P1 : Post (ViewP p) sc sc2 (fun es cs => EX T (sc_local_args sc) expression (flatten o1, es, cs))).
+        { eapply Post_pre; [| |exact (Hmt p expression sc1 o1 sc2 T Hc HT E1)].
           - repeat split.
           - auto. }
-        pose proof (IH sc2 o2 sc3 (Post_cok _ _ _ _ P1) E2) as P2.
+        assert (HT2 : Tof p sc2 = map snd T).
+        { destruct P1 as (_ & V1 & _). rewrite (ViewP_Tof _ _ _ V1). exact HT. }
+        pose proof (IH sc2 o2 sc3 T (Post_cok _ _ _ _ P1) HT2 E2) as P2.
         destruct P1 as (L1 & V1 & R1).
-        rewrite (ViewP_Tof _ _ _ V1), L1 in P2.
+        rewrite L1 in P2.
         eapply Post_seq; [apply ViewP_trans | exact (conj L1 (conj V1 R1)) | exact P2 |].
         intros e1 c1 e2 c2 J1 J2. cbn [app]. rewrite flatten_app.
         exact (L_placeable' _ _ _ _ _ _ _ _ _ _ J1 J2).
@@ -493,38 +505,38 @@ Qed.
 
 Lemma resolve_list_spec f :
   R_ir f ->
-  forall l sc vs sc', cok (sc_intls sc) -> sc_travelled sc <> [] ->
+  forall l sc vs sc' T, cok (sc_intls sc) -> sc_travelled sc <> [] -> sc_travelled sc = map snd T ->
   resolve_list (ir f) l sc = Done (vs, sc') ->
-  Post ViewT sc sc' (fun es cs => ES (sc_travelled sc) (sc_local_args sc) l (vs, es, cs)).
+  Post ViewT sc sc' (fun es cs => ES T (sc_local_args sc) l (vs, es, cs)).
 Proof.
-  intros Hir. induction l as [|x r IH]; intros sc vs sc' Hc Ht H; cbn [resolve_list] in H.
+  intros Hir. induction l as [|x r IH]; intros sc vs sc' T Hc Ht HT H; cbn [resolve_list] in H.
   - injection H as <- <-. apply Post_refl; [apply ViewT_refl | exact Hc | intros _; constructor].
   - apply obind_done in H as ([v sc1] & E1 & H).
     fold (resolve_list (ir f)) in H.
     apply obind_done in H as ([vs1 sc2] & E2 & H). injection H as <- <-.
-    pose proof (Hir x sc v sc1 Hc Ht E1) as P1.
-    pose proof (IH sc1 vs1 sc2 (Post_cok _ _ _ _ P1) (Post_trav_ne _ _ _ P1 Ht) E2) as P2.
-    eapply (Post_seqT sc sc1 sc2 _ (fun T env es cs => ES T env r (vs1, es, cs))); [exact P1 | exact P2 |].
+    pose proof (Hir x sc v sc1 T Hc Ht HT E1) as P1.
+    pose proof (IH sc1 vs1 sc2 T (Post_cok _ _ _ _ P1) (Post_trav_ne _ _ _ P1 Ht) (Post_trav_T _ _ _ _ P1 HT) E2) as P2.
+    eapply (Post_seqT sc sc1 sc2 _ (fun env es cs => ES T env r (vs1, es, cs))); [exact P1 | exact P2 |].
     intros e1 c1 e2 c2 J1 J2. constructor; assumption.
 Qed.
 
 Lemma resolve_named_spec f :
   R_ir f ->
-  forall l sc nam sc', cok (sc_intls sc) -> sc_travelled sc <> [] ->
+  forall l sc nam sc' T, cok (sc_intls sc) -> sc_travelled sc <> [] -> sc_travelled sc = map snd T ->
   resolve_named (ir f) l sc = Done (nam, sc') ->
   Post ViewT sc sc' (fun es cs => exists vn, nam = combine (map named_name l) vn /\
-                                   ES (sc_travelled sc) (sc_local_args sc) (map named_value l) (vn, es, cs)).
+                                   ES T (sc_local_args sc) (map named_value l) (vn, es, cs)).
 Proof.
-  intros Hir. induction l as [|[name x] r IH]; intros sc nam sc' Hc Ht H; cbn [resolve_named] in H.
+  intros Hir. induction l as [|[name x] r IH]; intros sc nam sc' T Hc Ht HT H; cbn [resolve_named] in H.
   - injection H as <- <-. apply Post_refl; [apply ViewT_refl | exact Hc |].
     intros _. exists []. split; [reflexivity | constructor].
   - apply obind_done in H as ([v sc1] & E1 & H).
     fold (resolve_named (ir f)) in H.
     apply obind_done in H as ([vs1 sc2] & E2 & H). injection H as <- <-.
-    pose proof (Hir x sc v sc1 Hc Ht E1) as P1.
-    pose proof (IH sc1 vs1 sc2 (Post_cok _ _ _ _ P1) (Post_trav_ne _ _ _ P1 Ht) E2) as P2.
-    eapply (Post_seqT sc sc1 sc2 _ (fun T env es cs => exists vn, vs1 = combine (map named_name r) vn /\
-                                                        ES T env (map named_value r) (vn, es, cs))); [exact P1 | exact P2 |].
+    pose proof (Hir x sc v sc1 T Hc Ht HT E1) as P1.
+    pose proof (IH sc1 vs1 sc2 T (Post_cok _ _ _ _ P1) (Post_trav_ne _ _ _ P1 Ht) (Post_trav_T _ _ _ _ P1 HT) E2) as P2.
+    eapply (Post_seqT sc sc1 sc2 _ (fun env es cs => exists vn, vs1 = combine (map named_name r) vn /\
+                                                    ES T env (map named_value r) (vn, es, cs))); [exact P1 | exact P2 |].
     intros e1 c1 e2 c2 J1 (vn & -> & J2). exists (v :: vn). split; [reflexivity|].
     cbn [map named_value]. constructor; assumption.
 Qed.
@@ -532,14 +544,14 @@ Qed.
 (* ---------- one step of each function ---------- *)
 Lemma step_pw f : R_mt f -> R_pw (S f).
 Proof.
-  intros Hmt p sc o sc' Hc H. rewrite pw_S in H.
-  pose proof (pattern_loop_spec f p _ Hmt _ sc o sc' Hc H) as P.
+  intros Hmt p sc o sc' T Hc HT H. rewrite pw_S in H.
+  pose proof (pattern_loop_spec f p _ Hmt _ sc o sc' T Hc HT H) as P.
   eapply Post_weaken; [exact P | auto |]. intros es cs _ HJ. destruct p as [els]. constructor. exact HJ.
 Qed.
 
 Lemma step_mt f : R_ew f -> R_mt (S f).
 Proof.
-  intros Hew p e sc o sc' Hc H. rewrite mt_S in H. cbv zeta in H.
+  intros Hew p e sc o sc' T Hc HT H. rewrite mt_S in H. cbv zeta in H.
   set (sc0 := match sc_travelled sc with [] => set_travelled sc [p] | _ :: _ => sc end) in *.
   assert (F0 : same_view sc sc0 /\ sc_intls sc0 = sc_intls sc /\ sc_travelled sc0 = Tof p sc /\ sc_travelled sc0 <> [] /\
                (sc_travelled sc <> [] -> sc_travelled sc0 = sc_travelled sc)).
@@ -549,11 +561,12 @@ Proof.
   destruct F0 as (S0 & I0 & T0 & N0 & K0).
   apply obind_done in H as ([o1 sc1] & E & H).
   assert (Hc0 : cok (sc_intls sc0)) by (rewrite I0; exact Hc).
-  pose proof (Hew e sc0 o1 sc1 Hc0 N0 E) as P.
-  assert (P' : Post (ViewP p) sc sc1 (fun es cs => EX (Tof p sc) (sc_local_args sc) e (flatten o1, es, cs))).
+  assert (HT0 : sc_travelled sc0 = map snd T) by (rewrite T0; exact HT).
+  pose proof (Hew e sc0 o1 sc1 T Hc0 N0 HT0 E) as P.
+  assert (P' : Post (ViewP p) sc sc1 (fun es cs => EX T (sc_local_args sc) e (flatten o1, es, cs))).
   { eapply Post_pre; [exact S0 | |].
     2:{ eapply Post_weaken; [exact P | intros V; exact V |].
-        intros es cs _ HJ. rewrite T0 in HJ. destruct S0 as (L0 & _). rewrite L0 in HJ. exact HJ. }
+        intros es cs _ HJ. destruct S0 as (L0 & _). rewrite L0 in HJ. exact HJ. }
     unfold ViewT. intros V. split.
     - intros Hne. rewrite V. exact (K0 Hne).
     - intros He. right. rewrite V, T0. unfold Tof. rewrite He. reflexivity. }
@@ -564,67 +577,71 @@ Qed.
 
 Lemma step_tr f : R_pw f -> R_tr (S f).
 Proof.
-  intros Hpw q exp sc o sc' Hc Ht Hsrc H. rewrite tr_S in H.
+  intros Hpw n q exp sc o sc' T Hc Ht HT Hsrc H. rewrite tr_S in H.
   destruct (pattern_mem q (sc_travelled sc)) eqn:Em.
   - injection H as <- <-. apply Post_error; [reflexivity | reflexivity | exact Hc |].
-    intros _. rewrite flatten_braced, Hsrc. apply R_cyclic. exact Em.
+    intros _. rewrite flatten_braced, Hsrc. apply R_cyclic. unfold open_by_structure. rewrite <- HT. exact Em.
   - cbv zeta in H. set (sc1 := set_travelled sc (q :: sc_travelled sc)) in *.
     apply obind_done in H as ([o1 sc2] & E & H). injection H as <- <-.
-    pose proof (Hpw q sc1 o1 sc2 Hc E) as P.
+    assert (HT1 : Tof q sc1 = map snd ((n, q) :: T)) by (cbn; rewrite HT; reflexivity).
+    pose proof (Hpw q sc1 o1 sc2 ((n, q) :: T) Hc HT1 E) as P.
     assert (V12 : sc_travelled sc2 = q :: sc_travelled sc).
     { destruct P as (_ & (V & _) & _). apply V. cbn. discriminate. }
     assert (P' : Post (fun _ _ => True) sc sc2
-                   (fun es cs => XP (sc_travelled sc) (sc_local_args sc) exp (Found q) (flatten o1, es, cs))).
+                   (fun es cs => XP T (sc_local_args sc) exp (Found n q) (flatten o1, es, cs))).
     { eapply (Post_pre (ViewP q) (fun _ _ => True) sc sc1 sc2); [repeat split | auto |].
       eapply Post_weaken; [exact P | intros V; exact V |].
-      intros es cs _ HJ. apply R_found; [exact Em | exact HJ]. }
+      intros es cs _ HJ. apply R_found; [unfold open_by_structure; rewrite <- HT; exact Em | exact HJ]. }
     eapply (Post_post (fun _ _ => True) ViewT); [exact P' | repeat split | reflexivity |].
     intros _. unfold ViewT. cbn. rewrite V12. reflexivity.
 Qed.
 
 Lemma step_ga f : R_ir f -> R_ga (S f).
 Proof.
-  intros Hir oa sc pos named sc' Hc Ht H.
+  intros Hir oa sc pos named sc' T Hc Ht HT H.
   destruct oa as [[positional nameds]|]; [rewrite ga_S_some in H | rewrite ga_S_none in H].
   - apply obind_done in H as ([vp sc1] & E1 & H).
     apply obind_done in H as ([nam sc2] & E2 & H).
     apply obind_done in H as (na & E3 & H). injection H as <- <- <-.
     unfold from_iter in E3. rewrite set_all_ins_all in E3. injection E3 as <-.
-    pose proof (resolve_list_spec f Hir positional sc vp sc1 Hc Ht E1) as P1.
-    pose proof (resolve_named_spec f Hir nameds sc1 nam sc2 (Post_cok _ _ _ _ P1) (Post_trav_ne _ _ _ P1 Ht) E2) as P2.
+    pose proof (resolve_list_spec f Hir positional sc vp sc1 T Hc Ht HT E1) as P1.
+    pose proof (resolve_named_spec f Hir nameds sc1 nam sc2 T (Post_cok _ _ _ _ P1) (Post_trav_ne _ _ _ P1 Ht)
+                  (Post_trav_T _ _ _ _ P1 HT) E2) as P2.
     eapply (Post_seqT sc sc1 sc2 _
-              (fun T env es cs => exists vn, nam = combine (map named_name nameds) vn /\
-                                             ES T env (map named_value nameds) (vn, es, cs))); [exact P1 | exact P2 |].
-    intros e1 c1 e2 c2 J1 (vn & -> & J2). exact (A_some _ _ _ _ _ _ _ _ _ _ _ _ _ _ _ _ _ _ _ J1 J2).
+              (fun env es cs => exists vn, nam = combine (map named_name nameds) vn /\
+                                           ES T env (map named_value nameds) (vn, es, cs))); [exact P1 | exact P2 |].
+    intros e1 c1 e2 c2 J1 (vn & -> & J2). exact (A_some _ _ _ _ _ _ _ _ _ _ _ _ _ _ _ _ _ _ _ _ J1 J2).
   - injection H as <- <- <-. apply Post_refl; [apply ViewT_refl | exact Hc | intros _; constructor].
 Qed.
 
 Lemma step_ew f : R_pw f -> R_iw f -> R_ir f -> R_ew (S f).
 Proof.
-  intros Hpw Hiw Hir e sc o sc' Hc Ht H.
+  intros Hpw Hiw Hir e sc o sc' T Hc Ht HT H.
   destruct e as [selector variants | exp]; [rewrite ew_S_select in H | rewrite ew_S_inline in H].
   - apply obind_done in H as ([sel sc1] & E1 & H).
     apply obind_done in H as ([hit sc2] & E2 & H).
-    pose proof (Hir selector sc sel sc1 Hc Ht E1) as P1.
+    pose proof (Hir selector sc sel sc1 T Hc Ht HT E1) as P1.
     destruct (select_hit_spec variants sel sc1 hit sc2 (Post_cok _ _ _ _ P1) E2) as (Hch & c' & -> & Hc').
     pose proof (Post_trav_ne _ _ _ P1 Ht) as Ht1.
+    pose proof (Post_trav_T _ _ _ _ P1 HT) as HT1.
     assert (Hvar : forall value, chosen rules f64_from_str variants sel = Some value ->
                      pw f value (set_intls sc1 c') = Done (o, sc') ->
-                     Post ViewT sc sc' (fun es cs => EX (sc_travelled sc) (sc_local_args sc) (Select selector variants) (flatten o, es, cs))).
+                     Post ViewT sc sc' (fun es cs => EX T (sc_local_args sc) (Select selector variants) (flatten o, es, cs))).
     { intros value Hv Hw.
-      pose proof (Hpw value (set_intls sc1 c') o sc' Hc' Hw) as P2.
-      eapply (Post_seqT sc sc1 sc' _ (fun T env es cs => EP T env value (flatten o, es, cs))); [exact P1 | |].
-      - eapply Post_pre; [| |eapply Post_weaken; [exact P2 | intros V; exact V |]].
+      assert (HTv : Tof value (set_intls sc1 c') = map snd T).
+      { rewrite (Tof_nonempty value (set_intls sc1 c') Ht1). exact HT1. }
+      pose proof (Hpw value (set_intls sc1 c') o sc' T Hc' HTv Hw) as P2.
+      eapply (Post_seqT sc sc1 sc' _ (fun env es cs => EP T env value (flatten o, es, cs))); [exact P1 | |].
+      - eapply Post_pre; [| |exact P2].
         + repeat split.
         + intros V. exact (ViewP_T value _ _ Ht1 V).
-        + intros es cs _ HJ. rewrite (Tof_nonempty value (set_intls sc1 c') Ht1) in HJ. exact HJ.
       - intros e1 c1 e2 c2 J1 J2. exact (X_select' _ _ _ _ _ _ _ _ _ _ _ J1 Hv J2). }
     destruct hit as [value|].
     + apply (Hvar value); [symmetry; exact Hch | exact H].
     + destruct (find_default variants) as [value|].
       * apply (Hvar value); [symmetry; exact Hch | exact H].
       * injection H as <- <-.
-        eapply (Post_seqT sc sc1 _ _ (fun T env es cs => es = [MissingDefault] /\ cs = [])); [exact P1 | |].
+        eapply (Post_seqT sc sc1 _ _ (fun env es cs => es = [MissingDefault] /\ cs = [])); [exact P1 | |].
         -- eapply Post_pre; [| |apply (Post_error ViewT (set_intls sc1 c') MissingDefault)].
            ++ repeat split.
            ++ intros V. exact V.
@@ -634,13 +651,13 @@ Proof.
            ++ intros _. split; reflexivity.
         -- intros e1 c1 e2 c2 J1 (-> & ->). rewrite app_nil_r.
            exact (X_select_no_default' _ _ _ _ _ _ _ J1 (eq_sym Hch)).
-  - eapply Post_weaken; [exact (Hiw exp sc o sc' Hc Ht H) | auto |].
+  - eapply Post_weaken; [exact (Hiw exp sc o sc' T Hc Ht HT H) | auto |].
     intros es cs _ HJ. constructor. exact HJ.
 Qed.
 
 Ltac fold_braces :=
   lazymatch goal with
-  | |- eval_inline _ _ _ _ _ _ _ _ _ ?T ?env ?i (_, ?es, ?cs) =>
+  | |- eval_inline _ _ _ _ _ _ _ _ _ _ ?T ?env ?i (_, ?es, ?cs) =>
       change (EI T env i (in_braces i, es, cs))
   end.
 
@@ -651,16 +668,15 @@ Lemma ref_src_term id attribute a :
   inline_write_error (TermReference id attribute a) = source_form (TermReference id attribute a).
 Proof. destruct attribute; reflexivity. Qed.
 
-(* what both FunctionReference arms do after the arguments are resolved: the call is logged *)
 Lemma step_ir f : R_iw f -> R_ga f -> R_ir (S f).
 Proof.
-  intros Hiw Hga i sc v sc' Hc Ht H.
+  intros Hiw Hga i sc v sc' T Hc Ht HT H.
   assert (Hgen : resolve_by_write overflow_checks call_function transform formatter rules custom_as_string
                    unescape_write unescape_to_string f64_from_str b args f i sc = Done (v, sc') ->
                  textual i = true ->
-                 Post ViewT sc sc' (fun es cs => EV (sc_travelled sc) (sc_local_args sc) i (v, es, cs))).
+                 Post ViewT sc sc' (fun es cs => EV T (sc_local_args sc) i (v, es, cs))).
   { unfold resolve_by_write. intros H' Htx. apply obind_done in H' as ([o sc1] & E & H'). injection H' as <- <-.
-    eapply Post_weaken; [exact (Hiw i sc o sc1 Hc Ht E) | auto |].
+    eapply Post_weaken; [exact (Hiw i sc o sc1 T Hc Ht HT E) | auto |].
     intros es cs _ HJ. apply V_textual; assumption. }
   destruct i as [value | value | id arguments | id attribute | id attribute arguments | id | expression].
   - rewrite ir_S_string in H. injection H as <- <-.
@@ -669,17 +685,17 @@ Proof.
     apply Post_refl; [apply ViewT_refl | exact Hc | intros _; constructor].
   - rewrite ir_S_function in H.
     apply obind_done in H as ([[pos named] sc1] & E1 & H).
-    pose proof (Hga (Some arguments) sc pos named sc1 Hc Ht E1) as P1.
+    pose proof (Hga (Some arguments) sc pos named sc1 T Hc Ht HT E1) as P1.
     rewrite function_lookup in H. destruct (function_named m id) as [func|] eqn:Ef.
     + injection H as <- <-. rewrite call_entry_apply.
-      eapply (Post_seqT sc sc1 _ _ (fun T env es cs => es = [] /\ cs = [Call id pos named])); [exact P1 | |].
+      eapply (Post_seqT sc sc1 _ _ (fun env es cs => es = [] /\ cs = [Call id pos named])); [exact P1 | |].
       * apply Post_call; [reflexivity | exact (Post_cok _ _ _ _ P1) | intros _; split; reflexivity].
       * intros e1 c1 e2 c2 J1 (-> & ->). rewrite app_nil_r. eapply V_function; eassumption.
     + cbn [reference_kind_of obind] in H. injection H as <- <-.
-      eapply (Post_seqT sc sc1 _ _ (fun T env es cs => es = [Reference (RefFunction id)] /\ cs = [])); [exact P1 | |].
+      eapply (Post_seqT sc sc1 _ _ (fun env es cs => es = [Reference (RefFunction id)] /\ cs = [])); [exact P1 | |].
       * apply Post_error; [reflexivity | reflexivity | exact (Post_cok _ _ _ _ P1) | intros _; split; reflexivity].
       * intros e1 c1 e2 c2 J1 (-> & ->). rewrite app_nil_r.
-        exact (V_function_unknown _ _ _ _ _ _ _ _ _ _ _ _ _ _ _ _ _ J1 Ef).
+        exact (V_function_unknown _ _ _ _ _ _ _ _ _ _ _ _ _ _ _ _ _ _ J1 Ef).
   - rewrite ir_S_message in H. apply Hgen; [exact H | reflexivity].
   - rewrite ir_S_term in H. apply Hgen; [exact H | reflexivity].
   - rewrite ir_S_variable, lookup_variable_r_spec in H.
@@ -689,15 +705,15 @@ Proof.
     + unfold missing_variable in H. destruct (sc_local_args sc) as [la|] eqn:El; cbn [reference_kind_of obind] in H;
         injection H as <- <-.
       * apply Post_refl; [apply ViewT_refl | exact Hc |].
-        intros _. exact (V_variable_missing _ _ _ _ _ _ _ _ _ _ (Some la) id Ev).
+        intros _. exact (V_variable_missing _ _ _ _ _ _ _ _ _ _ _ (Some la) id Ev).
       * apply Post_error; [reflexivity | reflexivity | exact Hc |].
-        intros _. exact (V_variable_missing _ _ _ _ _ _ _ _ _ _ None id Ev).
+        intros _. exact (V_variable_missing _ _ _ _ _ _ _ _ _ _ _ None id Ev).
   - rewrite ir_S_placeable in H. apply Hgen; [exact H | reflexivity].
 Qed.
 
 Lemma step_iw f : R_ew f -> R_tr f -> R_ga f -> R_iw (S f).
 Proof.
-  intros Hew Htr Hga i sc o sc' Hc Ht H.
+  intros Hew Htr Hga i sc o sc' T Hc Ht HT H.
   destruct i as [value | value | id arguments | id attribute | id attribute arguments | id | expression].
   - rewrite iw_S_string in H. injection H as <- <-.
     apply Post_refl; [apply ViewT_refl | exact Hc | intros _; rewrite flatten_txt; constructor].
@@ -706,7 +722,7 @@ Proof.
   - (* FunctionReference *)
     rewrite iw_S_function in H.
     apply obind_done in H as ([[pos named] sc1] & E1 & H).
-    pose proof (Hga (Some arguments) sc pos named sc1 Hc Ht E1) as P1.
+    pose proof (Hga (Some arguments) sc pos named sc1 T Hc Ht HT E1) as P1.
     rewrite function_lookup in H. destruct (function_named m id) as [func|] eqn:Ef.
     + cbv zeta in H. rewrite call_entry_apply in H.
       set (v := apply_function call_function func pos named) in *.
@@ -716,19 +732,19 @@ Proof.
                              end)] /\ sc' = log_call sc1 (Call id pos named)).
       { destruct v; injection H as <- <-; split; reflexivity. }
       destruct Ho as (-> & ->).
-      eapply (Post_seqT sc sc1 _ _ (fun T env es cs => es = [] /\ cs = [Call id pos named])); [exact P1 | |].
+      eapply (Post_seqT sc sc1 _ _ (fun env es cs => es = [] /\ cs = [Call id pos named])); [exact P1 | |].
       * apply Post_call; [reflexivity | exact (Post_cok _ _ _ _ P1) | intros _; split; reflexivity].
       * intros e1 c1 e2 c2 J1 (-> & ->). rewrite app_nil_r, flatten_txt.
-        exact (I_function _ _ _ _ _ _ _ _ _ _ _ _ _ _ _ _ _ _ v J1 Ef eq_refl).
+        exact (I_function _ _ _ _ _ _ _ _ _ _ _ _ _ _ _ _ _ _ _ v J1 Ef eq_refl).
     + rewrite (write_ref_error_spec (FunctionReference id arguments) _ (RefFunction id) eq_refl) in H. injection H as <- <-.
-      eapply (Post_seqT sc sc1 _ _ (fun T env es cs => es = [Reference (RefFunction id)] /\ cs = [])); [exact P1 | |].
+      eapply (Post_seqT sc sc1 _ _ (fun env es cs => es = [Reference (RefFunction id)] /\ cs = [])); [exact P1 | |].
       * apply Post_error; [reflexivity | reflexivity | exact (Post_cok _ _ _ _ P1) | intros _; split; reflexivity].
       * intros e1 c1 e2 c2 J1 (-> & ->). rewrite app_nil_r, flatten_braced.
-        exact (I_function_unknown _ _ _ _ _ _ _ _ _ _ _ _ _ _ _ _ _ J1 Ef).
+        exact (I_function_unknown _ _ _ _ _ _ _ _ _ _ _ _ _ _ _ _ _ _ J1 Ef).
   - (* MessageReference *)
     rewrite message_case in H.
-    destruct (message_target m id attribute) as [q| |id'] eqn:Et.
-    + eapply Post_weaken; [exact (Htr q _ sc o sc' Hc Ht (ref_src_message id attribute) H) | auto |].
+    destruct (message_target m id attribute) as [n q| |id'] eqn:Et.
+    + eapply Post_weaken; [exact (Htr n q _ sc o sc' T Hc Ht HT (ref_src_message id attribute) H) | auto |].
       intros es cs _ HJ. apply I_message. rewrite Et. exact HJ.
     + rewrite (write_ref_error_spec (MessageReference id attribute) _ (RefMessage id attribute) eq_refl) in H. injection H as <- <-.
       apply Post_error; [reflexivity | reflexivity | exact Hc |].
@@ -740,21 +756,23 @@ Proof.
     rewrite iw_S_term in H.
     apply obind_done in H as ([[pos named] sc1] & E1 & H). cbv zeta in H.
     apply obind_done in H as ([o1 sc3] & E2 & H). injection H as <- <-.
-    pose proof (Hga arguments sc pos named sc1 Hc Ht E1) as P1.
+    pose proof (Hga arguments sc pos named sc1 T Hc Ht HT E1) as P1.
     pose proof (Post_trav_ne _ _ _ P1 Ht) as Ht1.
+    pose proof (Post_trav_T _ _ _ _ P1 HT) as HT1.
     rewrite term_case in E2.
     set (exp := TermReference id attribute arguments) in *.
     assert (P2 : Post ViewT (set_local_args sc1 (Some named)) sc3
-                   (fun es cs => XP (sc_travelled sc1) (Some named) exp (term_target m id attribute) (flatten o1, es, cs))).
-    { destruct (term_target m id attribute) as [q| |id'] eqn:Et.
-      - exact (Htr q exp (set_local_args sc1 (Some named)) o1 sc3 (Post_cok _ _ _ _ P1) Ht1 (ref_src_term id attribute arguments) E2).
+                   (fun es cs => XP T (Some named) exp (term_target m id attribute) (flatten o1, es, cs))).
+    { destruct (term_target m id attribute) as [n q| |id'] eqn:Et.
+      - exact (Htr n q exp (set_local_args sc1 (Some named)) o1 sc3 T (Post_cok _ _ _ _ P1) Ht1 HT1
+                 (ref_src_term id attribute arguments) E2).
       - rewrite (write_ref_error_spec (TermReference id attribute arguments) _ (RefTerm id attribute) eq_refl) in E2. injection E2 as <- <-.
         apply Post_error; [reflexivity | reflexivity | exact (Post_cok _ _ _ _ P1) |].
         intros _. rewrite flatten_braced.
-        exact (R_unknown _ _ _ _ _ _ _ _ _ (sc_travelled sc1) (Some named) (TermReference id attribute arguments)).
+        exact (R_unknown _ _ _ _ _ _ _ _ _ _ T (Some named) (TermReference id attribute arguments)).
       - exfalso. exact (term_target_not_valueless _ _ _ Et). }
     apply Post_scoped in P2.
-    eapply (Post_seqT sc sc1 _ _ (fun T env es cs => XP T (Some named) exp (term_target m id attribute) (flatten o1, es, cs)));
+    eapply (Post_seqT sc sc1 _ _ (fun env es cs => XP T (Some named) exp (term_target m id attribute) (flatten o1, es, cs)));
       [exact P1 | exact P2 |].
     intros e1 c1 e2 c2 J1 J2. exact (I_term' _ _ _ _ _ _ _ _ _ _ _ _ J1 J2).
   - (* VariableReference *)
@@ -767,26 +785,26 @@ Proof.
         injection H as <- <-.
       * apply Post_refl; [apply ViewT_refl | exact Hc |].
         intros _. rewrite flatten_braced.
-        exact (I_variable_missing _ _ _ _ _ _ _ _ _ _ (Some la) id Ev).
+        exact (I_variable_missing _ _ _ _ _ _ _ _ _ _ _ (Some la) id Ev).
       * apply Post_error; [reflexivity | reflexivity | exact Hc |].
         intros _. rewrite flatten_braced.
-        exact (I_variable_missing _ _ _ _ _ _ _ _ _ _ None id Ev).
+        exact (I_variable_missing _ _ _ _ _ _ _ _ _ _ _ None id Ev).
   - (* Placeable *)
     rewrite iw_S_placeable in H.
-    eapply Post_weaken; [exact (Hew expression sc o sc' Hc Ht H) | auto |].
+    eapply Post_weaken; [exact (Hew expression sc o sc' T Hc Ht HT H) | auto |].
     intros es cs _ HJ. constructor. exact HJ.
 Qed.
 
 Theorem refine_all : forall f, R_all f.
 Proof.
   induction f as [|f (Hpw & Hmt & Hew & Hiw & Hir & Htr & Hga)].
-  - split; [intros p sc o sc' _ H; discriminate H|].
-    split; [intros p e sc o sc' _ H; discriminate H|].
-    split; [intros e sc o sc' _ _ H; discriminate H|].
-    split; [intros i sc o sc' _ _ H; discriminate H|].
-    split; [intros i sc v sc' _ _ H; discriminate H|].
-    split; [intros q exp sc o sc' _ _ _ H; discriminate H|].
-    intros oa sc pos named sc' _ _ H; discriminate H.
+  - split; [intros p sc o sc' T _ _ H; discriminate H|].
+    split; [intros p e sc o sc' T _ _ H; discriminate H|].
+    split; [intros e sc o sc' T _ _ _ H; discriminate H|].
+    split; [intros i sc o sc' T _ _ _ H; discriminate H|].
+    split; [intros i sc v sc' T _ _ _ H; discriminate H|].
+    split; [intros n q exp sc o sc' T _ _ _ _ H; discriminate H|].
+    intros oa sc pos named sc' T _ _ _ H; discriminate H.
   - split; [apply step_pw; assumption|].
     split; [apply step_mt; assumption|].
     split; [apply step_ew; assumption|].
@@ -797,24 +815,27 @@ Proof.
 Qed.
 
 (* ---------- the entry point, isolation off ---------- *)
-Theorem write_refines_off fuel p c o sc :
-  cok c ->
+Theorem write_refines_off fuel n p c o sc :
+  cok c -> pattern_named m n = Some p ->
   write_pattern overflow_checks call_function transform formatter rules custom_as_string
     unescape_write unescape_to_string f64_from_str b args fuel p c = Done (o, sc) ->
   tmp_count (sc_errors sc) = (if sc_dirty sc then 1 else 0) /\
   (sc_dirty sc = false ->
-   Eval call_function transform formatter rules custom_as_string unescape_write f64_from_str m args p
+   Eval call_function transform formatter rules custom_as_string unescape_write f64_from_str m args open_by_structure n
      (flatten o, sc_errors sc, sc_calls sc)).
 Proof.
-  intros Hc H. unfold write_pattern in H.
+  intros Hc Hn H. unfold write_pattern in H.
   destruct (refine_all fuel) as (Hpw & _).
-  destruct (Hpw p (scope_new c) o sc Hc H) as (_ & _ & _ & _ & es & cs & E1 & E2 & E3 & HJ).
+  destruct (Hpw p (scope_new c) o sc [(n, p)] Hc eq_refl H) as (_ & _ & _ & _ & es & cs & E1 & E2 & E3 & HJ).
   cbn [scope_new sc_errors sc_calls app] in E1, E2. rewrite E1, E2.
-  split; [rewrite E3; reflexivity | exact HJ].
+  split; [rewrite E3; reflexivity|]. intros Hd. exists p. split; [exact Hn | exact (HJ Hd)].
 Qed.
 
 (* every call of the resolver gives the scope back with the local arguments it got (the D12 regression):
    in particular a term call inside a term restores the outer term's arguments *)
+Lemma any_names (l : list pattern) : l = map snd (map (fun q => (NMessage [] None, q)) l).
+Proof. rewrite map_map. cbn. symmetry. apply map_id. Qed.
+
 Theorem local_args_restored f :
   (forall p sc o sc', cok (sc_intls sc) -> pw f p sc = Done (o, sc') -> sc_local_args sc' = sc_local_args sc) /\
   (forall i sc o sc', cok (sc_intls sc) -> sc_travelled sc <> [] -> iw f i sc = Done (o, sc') ->
@@ -824,9 +845,9 @@ Theorem local_args_restored f :
 Proof.
   destruct (refine_all f) as (Hpw & _ & _ & Hiw & Hir & _).
   split; [|split].
-  - intros p sc o sc' Hc H. exact (proj1 (Hpw p sc o sc' Hc H)).
-  - intros i sc o sc' Hc Ht H. exact (proj1 (Hiw i sc o sc' Hc Ht H)).
-  - intros i sc v sc' Hc Ht H. exact (proj1 (Hir i sc v sc' Hc Ht H)).
+  - intros p sc o sc' Hc H. exact (proj1 (Hpw p sc o sc' _ Hc (any_names _) H)).
+  - intros i sc o sc' Hc Ht H. exact (proj1 (Hiw i sc o sc' _ Hc Ht (any_names _) H)).
+  - intros i sc v sc' Hc Ht H. exact (proj1 (Hir i sc v sc' _ Hc Ht (any_names _) H)).
 Qed.
 
 End Refine.
@@ -876,35 +897,55 @@ Proof.
   exists s2. auto.
 Qed.
 
-Theorem write_refines iso fuel p c o sc :
-  cache_ok rules c -> no_marks_in_values iso p ->
+Theorem write_refines iso fuel n p c o sc :
+  cache_ok rules c -> no_marks_in_values iso p -> pattern_named m n = Some p ->
   write iso fuel p c = Done (o, sc) ->
   tmp_count (sc_errors sc) = (if sc_dirty sc then 1 else 0) /\
   (sc_dirty sc = false ->
-   Eval call_function transform formatter rules custom_as_string unescape_write f64_from_str m args p
+   Eval call_function transform formatter rules custom_as_string unescape_write f64_from_str m args open_by_structure n
      (flatten (strip o), sc_errors sc, sc_calls sc)).
 Proof.
-  intros Hc Hok H. destruct iso.
+  intros Hc Hok Hn H. destruct iso.
   - destruct (Hok eq_refl) as [Hb Hp].
     destruct (write_off_of_on fuel p c o sc Hc Hb Hp H) as (sc2 & H2 & Ee & Ec & Ed).
     destruct (write_refines_off overflow_checks call_function transform formatter rules custom_as_string
-                unescape_write unescape_to_string f64_from_str m args Hun fuel p c (strip o) sc2 Hc H2) as [T J].
+                unescape_write unescape_to_string f64_from_str m args Hun fuel n p c (strip o) sc2 Hc Hn H2) as [T J].
     rewrite Ee, Ec, Ed in *. split; assumption.
   - destruct (write_refines_off overflow_checks call_function transform formatter rules custom_as_string
-                unescape_write unescape_to_string f64_from_str m args Hun fuel p c o sc Hc H) as [T J].
+                unescape_write unescape_to_string f64_from_str m args Hun fuel n p c o sc Hc Hn H) as [T J].
     split; [exact T|]. intros Hd.
     pose proof (out_all overflow_checks call_function transform formatter rules custom_as_string
                   unescape_write unescape_to_string f64_from_str (Bundle m false) args fuel) as (Bpw & _).
     destruct (Bpw p (scope_new c) o sc H) as [_ Hno]. rewrite (Hno eq_refl). exact (J Hd).
 Qed.
 
+(* the string API, isolation off: format_pattern returns the text write_pattern writes (ResolverPure.v
+   format_eq_write, for formatters that leave strings alone: finding D22) *)
+Theorem format_refines_off fuel n p c text sc :
+  cache_ok rules c -> formatter_keeps_strings formatter -> pattern_named m n = Some p ->
+  format_pattern overflow_checks call_function transform formatter rules custom_as_string
+    unescape_write unescape_to_string f64_from_str (Bundle m false) args (S fuel) p c = Done (text, sc) ->
+  ~ In TooManyPlaceables (sc_errors sc) ->
+  Eval call_function transform formatter rules custom_as_string unescape_write f64_from_str m args open_by_structure n
+    (text, sc_errors sc, sc_calls sc).
+Proof.
+  intros Hc Hf Hnm H Hn.
+  rewrite (format_eq_write overflow_checks call_function transform formatter rules custom_as_string
+             unescape_write unescape_to_string f64_from_str (Bundle m false) args fuel p c Hf) in H.
+  destruct (write false (S fuel) p c) as [[o sc1]|t|] eqn:E; try discriminate. injection H as <- <-.
+  destruct (write_refines_off overflow_checks call_function transform formatter rules custom_as_string
+              unescape_write unescape_to_string f64_from_str m args Hun (S fuel) n p c o sc1 Hc Hnm E) as [T J].
+  apply J. destruct (sc_dirty sc1); [exfalso | reflexivity].
+  apply Hn, tmp_count_in. rewrite T. discriminate.
+Qed.
+
 (* the limit is reported at most once, and exactly when the run was cut short *)
-Corollary limit_reported_once iso fuel p c o sc :
-  cache_ok rules c -> no_marks_in_values iso p ->
+Corollary limit_reported_once iso fuel n p c o sc :
+  cache_ok rules c -> no_marks_in_values iso p -> pattern_named m n = Some p ->
   write iso fuel p c = Done (o, sc) ->
   tmp_count (sc_errors sc) <= 1 /\ (In TooManyPlaceables (sc_errors sc) <-> sc_dirty sc = true).
 Proof.
-  intros Hc Hok H. destruct (write_refines iso fuel p c o sc Hc Hok H) as [T _].
+  intros Hc Hok Hn H. destruct (write_refines iso fuel n p c o sc Hc Hok Hn H) as [T _].
   split; [rewrite T; destruct (sc_dirty sc); lia|].
   rewrite <- tmp_count_in, T. destruct (sc_dirty sc); split; intros; congruence || lia.
 Qed.
@@ -934,15 +975,16 @@ Variable unescape : bytes -> bytes.
 Variable f64_from_str : bytes -> option fval.
 Variable entries : list (bytes * bentry).
 Variable args : option fargs.
+Variable is_open : pname -> pattern -> list (pname * pattern) -> bool.
 
-Notation EP := (eval_pattern call_function transform formatter rules custom_as_string unescape f64_from_str entries args).
-Notation EL := (eval_elements call_function transform formatter rules custom_as_string unescape f64_from_str entries args).
-Notation EX := (eval_expr call_function transform formatter rules custom_as_string unescape f64_from_str entries args).
-Notation EI := (eval_inline call_function transform formatter rules custom_as_string unescape f64_from_str entries args).
-Notation EV := (eval_value call_function transform formatter rules custom_as_string unescape f64_from_str entries args).
-Notation EA := (eval_args call_function transform formatter rules custom_as_string unescape f64_from_str entries args).
-Notation ES := (eval_values call_function transform formatter rules custom_as_string unescape f64_from_str entries args).
-Notation XP := (expand call_function transform formatter rules custom_as_string unescape f64_from_str entries args).
+Notation EP := (eval_pattern call_function transform formatter rules custom_as_string unescape f64_from_str entries args is_open).
+Notation EL := (eval_elements call_function transform formatter rules custom_as_string unescape f64_from_str entries args is_open).
+Notation EX := (eval_expr call_function transform formatter rules custom_as_string unescape f64_from_str entries args is_open).
+Notation EI := (eval_inline call_function transform formatter rules custom_as_string unescape f64_from_str entries args is_open).
+Notation EV := (eval_value call_function transform formatter rules custom_as_string unescape f64_from_str entries args is_open).
+Notation EA := (eval_args call_function transform formatter rules custom_as_string unescape f64_from_str entries args is_open).
+Notation ES := (eval_values call_function transform formatter rules custom_as_string unescape f64_from_str entries args is_open).
+Notation XP := (expand call_function transform formatter rules custom_as_string unescape f64_from_str entries args is_open).
 
 Ltac use_ih :=
   match goal with
@@ -977,7 +1019,7 @@ Theorem eval_functional :
   (forall T env a r, EA T env a r -> forall r', EA T env a r' -> r' = r) /\
   (forall T env l r, ES T env l r -> forall r', ES T env l r' -> r' = r).
 Proof.
-  apply (eval_mutind call_function transform formatter rules custom_as_string unescape f64_from_str entries args
+  apply (eval_mutind call_function transform formatter rules custom_as_string unescape f64_from_str entries args is_open
            (fun T env p r => forall r', EP T env p r' -> r' = r)
            (fun T env els r => forall r', EL T env els r' -> r' = r)
            (fun T env e r => forall r', EX T env e r' -> r' = r)
@@ -989,3 +1031,220 @@ Proof.
     intros; match goal with H : _ |- _ = _ => inversion H; subst; clear H end; finish.
 Qed.
 End Functional.
+
+(* ---------- consequences of the rules, used by Props/C07.v ---------- *)
+Section SpecFacts.
+Variable call_function : bytes -> list fvalue -> fargs -> fvalue.
+Variable transform : option (bytes -> bytes).
+Variable formatter : option (fvalue -> option bytes).
+Variable rules : ntype -> operands -> pcat.
+Variable custom_as_string : bytes -> bytes.
+Variable unescape : bytes -> bytes.
+Variable f64_from_str : bytes -> option fval.
+Variable entries : list (bytes * bentry).
+Variable args : option fargs.
+Variable is_open : pname -> pattern -> list (pname * pattern) -> bool.
+
+Notation EL := (eval_elements call_function transform formatter rules custom_as_string unescape f64_from_str entries args is_open).
+Notation EI := (eval_inline call_function transform formatter rules custom_as_string unescape f64_from_str entries args is_open).
+Notation EV := (eval_value call_function transform formatter rules custom_as_string unescape f64_from_str entries args is_open).
+Notation EA := (eval_args call_function transform formatter rules custom_as_string unescape f64_from_str entries args is_open).
+
+Lemma spec_term_then_rest T env id attr cargs rest r :
+  EL T env (PlaceableElement (Inline (TermReference id attr cargs)) :: rest) r ->
+  exists r1 r2, EI T env (TermReference id attr cargs) r1 /\ EL T env rest r2 /\ r = r1 +++ r2.
+Proof.
+  intros H. inversion H as [| |T' env' e rest' r1 r2 He Hr]; subst. inversion He; subst. eauto.
+Qed.
+
+Lemma spec_unknown_message T env id attr r :
+  message_target entries id attr = Unknown -> EI T env (MessageReference id attr) r ->
+  r = (in_braces (MessageReference id attr), [Reference (RefMessage id attr)], []).
+Proof.
+  intros Ht H. inversion H; subst.
+  match goal with Hx : expand _ _ _ _ _ _ _ _ _ _ _ _ _ _ _ |- _ => rewrite Ht in Hx; inversion Hx; subst end. reflexivity.
+Qed.
+
+Lemma spec_unknown_term T env id attr cargs r :
+  term_target entries id attr = Unknown -> EI T env (TermReference id attr cargs) r ->
+  exists pos named es cs, EA T env cargs (pos, named, es, cs) /\
+    r = (in_braces (TermReference id attr cargs), es ++ [Reference (RefTerm id attr)], cs).
+Proof.
+  intros Ht H. inversion H; subst.
+  match goal with Hx : expand _ _ _ _ _ _ _ _ _ _ _ _ _ _ _ |- _ => rewrite Ht in Hx; inversion Hx; subst end.
+  eexists _, _, _, _. split; [eassumption|]. unfold silent, fails, seq. cbn [fst snd]. rewrite app_nil_r. reflexivity.
+Qed.
+
+Lemma spec_unknown_function T env id cargs r :
+  function_named entries id = None -> EI T env (FunctionReference id cargs) r ->
+  exists pos named es cs, EA T env (Some cargs) (pos, named, es, cs) /\
+    r = (in_braces (FunctionReference id cargs), es ++ [Reference (RefFunction id)], cs).
+Proof.
+  intros Hf H. inversion H; subst; [congruence|].
+  eexists _, _, _, _. split; [eassumption | reflexivity].
+Qed.
+
+Lemma spec_unknown_function_value T env id cargs r :
+  function_named entries id = None -> EV T env (FunctionReference id cargs) r ->
+  exists pos named es cs, EA T env (Some cargs) (pos, named, es, cs) /\
+    r = (VError, es ++ [Reference (RefFunction id)], cs).
+Proof.
+  intros Hf H. inversion H; subst; try congruence.
+  - eexists _, _, _, _. split; [eassumption | reflexivity].
+  - match goal with Hx : textual _ = true |- _ => discriminate Hx end.
+Qed.
+
+Lemma spec_missing_variable T env id r :
+  variable args env id = None -> EI T env (VariableReference id) r ->
+  r = (in_braces (VariableReference id), missing_variable_errors env id, []).
+Proof. intros Hv H. inversion H; subst; [congruence | reflexivity]. Qed.
+
+Lemma chosen_first before v after sel :
+  (forall u, In u before -> key_matches rules f64_from_str (variant_key_of u) sel = false) ->
+  key_matches rules f64_from_str (variant_key_of v) sel = true ->
+  chosen rules f64_from_str (before ++ v :: after) sel = Some (variant_value v).
+Proof.
+  intros Hb Hv. unfold chosen.
+  assert (E : find (fun v => key_matches rules f64_from_str (variant_key_of v) sel) (before ++ v :: after) = Some v).
+  { induction before as [|u r IH]; cbn [app find].
+    - rewrite Hv. reflexivity.
+    - rewrite (Hb u (or_introl eq_refl)). apply IH. intros u' Hu. apply Hb. right. exact Hu. }
+  rewrite E. reflexivity.
+Qed.
+
+Lemma chosen_default variants sel :
+  (forall u, In u variants -> key_matches rules f64_from_str (variant_key_of u) sel = false) ->
+  chosen rules f64_from_str variants sel = option_map variant_value (find variant_default variants).
+Proof.
+  intros Hn. unfold chosen.
+  assert (E : find (fun v => key_matches rules f64_from_str (variant_key_of v) sel) variants = None).
+  { induction variants as [|u r IH]; cbn [find]; [reflexivity|].
+    rewrite (Hn u (or_introl eq_refl)). apply IH. intros u' Hu. apply Hn. right. exact Hu. }
+  rewrite E. reflexivity.
+Qed.
+
+Lemma key_matches_string name s : key_matches rules f64_from_str (KeyIdentifier name) (VString s) = bytes_eqb name s.
+Proof. reflexivity. Qed.
+
+Lemma key_matches_number lit x value options :
+  f64_from_str lit = Some x ->
+  key_matches rules f64_from_str (KeyNumber lit) (VNumber (FNum value options)) = fval_eqb x value.
+Proof. intros Hx. unfold key_matches, key_value, try_number, fnumber_from_str. rewrite Hx. reflexivity. Qed.
+
+Lemma key_matches_category name n cat ops :
+  plural_keyword name = Some cat -> fnumber_operands n = Done ops ->
+  key_matches rules f64_from_str (KeyIdentifier name) (VNumber n) = pcat_eqb (rules (o_type (n_options n)) ops) cat.
+Proof. intros Hk Ho. unfold key_matches, key_value. rewrite Hk, Ho. reflexivity. Qed.
+
+End SpecFacts.
+
+(* "is being expanded" by name = by structural equality of patterns, when different entries have different patterns *)
+Section Identity.
+Variable call_function : bytes -> list fvalue -> fargs -> fvalue.
+Variable transform : option (bytes -> bytes).
+Variable formatter : option (fvalue -> option bytes).
+Variable rules : ntype -> operands -> pcat.
+Variable custom_as_string : bytes -> bytes.
+Variable unescape : bytes -> bytes.
+Variable f64_from_str : bytes -> option fval.
+Variable entries : list (bytes * bentry).
+Variable args : option fargs.
+
+(* different entries have (structurally) different patterns *)
+Definition no_equal_patterns : Prop :=
+  forall n1 n2 q1 q2, pattern_named entries n1 = Some q1 -> pattern_named entries n2 = Some q2 ->
+                      pattern_eqb q1 q2 = true -> n1 = n2.
+
+Definition consistent (T : list (pname * pattern)) : Prop :=
+  Forall (fun x => pattern_named entries (fst x) = Some (snd x)) T.
+
+Lemma option_bytes_eqb_eq (x y : option bytes) : option_eqb bytes_eqb x y = true <-> x = y.
+Proof.
+  destruct x as [a|], y as [c|]; cbn; try (split; [discriminate | discriminate]); try tauto.
+  rewrite bytes_eqb_eq. split; [intros ->; reflexivity | intros [= ->]; reflexivity].
+Qed.
+
+Lemma pname_eqb_eq a c : pname_eqb a c = true <-> a = c.
+Proof.
+  destruct a as [i x|i x], c as [j y|j y]; cbn; try (split; discriminate);
+    rewrite Bool.andb_true_iff, bytes_eqb_eq, option_bytes_eqb_eq;
+    (split; [intros [-> ->]; reflexivity | intros [= -> ->]; split; reflexivity]).
+Qed.
+
+Lemma open_agree n q T :
+  no_equal_patterns -> consistent T -> pattern_named entries n = Some q ->
+  open_by_structure n q T = open_by_identity n q T.
+Proof.
+  intros Hd HT Hn. unfold open_by_structure, open_by_identity, pattern_mem.
+  induction HT as [|[n1 q1] T H1 HT IH]; cbn [map existsb snd fst]; [reflexivity|].
+  rewrite IH. f_equal. cbn [fst snd] in H1.
+  destruct (pattern_eqb q q1) eqn:E1, (pname_eqb n n1) eqn:E2; try reflexivity.
+  - rewrite (Hd n n1 q q1 Hn H1 E1) in E2.
+    assert (X : pname_eqb n1 n1 = true) by (apply pname_eqb_eq; reflexivity). congruence.
+  - apply pname_eqb_eq in E2. subst n1. rewrite Hn in H1. injection H1 as <-.
+    rewrite pattern_eqb_refl in E1. discriminate.
+Qed.
+
+Lemma message_target_named id attr n q :
+  message_target entries id attr = Found n q -> pattern_named entries n = Some q.
+Proof.
+  intros H. assert (Hn : n = NMessage id attr).
+  { unfold message_target, attr_or_value in H. destruct (entry_find entries id) as [[v a| |]|]; try discriminate.
+    destruct attr as [x|]; [destruct (find_attribute a x); [injection H as <- <-; reflexivity | discriminate]
+                           | destruct v; [injection H as <- <-; reflexivity | discriminate]]. }
+  subst n. unfold pattern_named. rewrite H. reflexivity.
+Qed.
+
+Lemma term_target_named id attr n q :
+  term_target entries id attr = Found n q -> pattern_named entries n = Some q.
+Proof.
+  intros H. assert (Hn : n = NTerm id attr).
+  { unfold term_target, attr_or_value in H. destruct (entry_find entries id) as [[| v a|]|]; try discriminate.
+    destruct attr as [x|]; [destruct (find_attribute a x); [injection H as <- <-; reflexivity | discriminate]
+                           | injection H as <- <-; reflexivity]. }
+  subst n. unfold pattern_named. rewrite H. reflexivity.
+Qed.
+
+Notation S_ j := (j call_function transform formatter rules custom_as_string unescape f64_from_str entries args open_by_structure).
+Notation I_ j := (j call_function transform formatter rules custom_as_string unescape f64_from_str entries args open_by_identity).
+
+Theorem structure_to_identity :
+  no_equal_patterns ->
+  (forall T env p r, S_ eval_pattern T env p r -> consistent T -> I_ eval_pattern T env p r) /\
+  (forall T env els r, S_ eval_elements T env els r -> consistent T -> I_ eval_elements T env els r) /\
+  (forall T env e r, S_ eval_expr T env e r -> consistent T -> I_ eval_expr T env e r) /\
+  (forall T env i r, S_ eval_inline T env i r -> consistent T -> I_ eval_inline T env i r) /\
+  (forall T env i t r, S_ expand T env i t r -> consistent T ->
+      (forall n q, t = Found n q -> pattern_named entries n = Some q) -> I_ expand T env i t r) /\
+  (forall T env i r, S_ eval_value T env i r -> consistent T -> I_ eval_value T env i r) /\
+  (forall T env a r, S_ eval_args T env a r -> consistent T -> I_ eval_args T env a r) /\
+  (forall T env l r, S_ eval_values T env l r -> consistent T -> I_ eval_values T env l r).
+Proof.
+  intros Hd.
+  apply (eval_mutind call_function transform formatter rules custom_as_string unescape f64_from_str entries args open_by_structure
+           (fun T env p r => consistent T -> I_ eval_pattern T env p r)
+           (fun T env els r => consistent T -> I_ eval_elements T env els r)
+           (fun T env e r => consistent T -> I_ eval_expr T env e r)
+           (fun T env i r => consistent T -> I_ eval_inline T env i r)
+           (fun T env i t r => consistent T -> (forall n q, t = Found n q -> pattern_named entries n = Some q) ->
+                               I_ expand T env i t r)
+           (fun T env i r => consistent T -> I_ eval_value T env i r)
+           (fun T env a r => consistent T -> I_ eval_args T env a r)
+           (fun T env l r => consistent T -> I_ eval_values T env l r));
+    intros; try solve [econstructor; eauto].
+  - constructor. apply H0; [assumption | apply message_target_named].
+  - econstructor; [eauto|]. apply H2; [assumption | apply term_target_named].
+  - apply R_found.
+    + rewrite <- (open_agree n q T Hd H2 (H3 n q eq_refl)). assumption.
+    + apply H1. constructor; [exact (H3 n q eq_refl) | assumption].
+  - apply R_cyclic. rewrite <- (open_agree n q T Hd H0 (H1 n q eq_refl)). assumption.
+Qed.
+Corollary Eval_structure_to_identity n r :
+  no_equal_patterns ->
+  S_ Eval n r -> I_ Eval n r.
+Proof.
+  intros Hd (q & Hn & H). exists q. split; [exact Hn|].
+  apply (proj1 (structure_to_identity Hd) _ _ _ _ H). constructor; [exact Hn | constructor].
+Qed.
+
+End Identity.
